@@ -148,7 +148,7 @@ Section Frame.
   Qed.
   Lemma R_sub_poll c w q H q' H' : sub_poll c w q H = (q', H') -> R H H'.
   Proof.
-    unfold sub_poll. destruct q as [sent dead tg v ch|m|sent tg v ch].
+    unfold sub_poll. destruct q as [sent dead tg v ch|m|sent tg v ch|u].
     - destruct (req_poll c w sent dead tg v ch H) as [[[o s'] d'] H1] eqn:E1. apply R_req_poll in E1.
       destruct o; intros E; inversion E; subst; exact E1.
     - intros E; inversion E; subst; apply R_refl.
@@ -157,9 +157,11 @@ Section Frame.
       destruct (ch_buf (gch ch H1)); intros E; inversion E; subst.
       + eapply R_trans; [exact R1 | apply R_chan_reg].
       + eapply R_trans; [exact R1 | apply R_chan_drop_rx].
+    - destruct (tf_fin (gtf u H)); [intros E; inversion E; subst; apply R_refl|].
+      destruct (tf_alive (gtf u H)); intros E; inversion E; subst; [apply R_utf | apply R_note].
   Qed.
   Lemma R_sub_drop q H : R H (sub_drop q H).
-  Proof. unfold sub_drop. destruct q as [sent dead tg v ch|m|sent tg v ch]; [|apply R_refl|apply R_chan_drop_rx]. destruct dead; [apply R_refl | apply R_chan_drop_rx]. Qed.
+  Proof. unfold sub_drop. destruct q as [sent dead tg v ch|m|sent tg v ch|u]; [|apply R_refl|apply R_chan_drop_rx|apply R_refl]. destruct dead; [apply R_refl | apply R_chan_drop_rx]. Qed.
 
   Lemma R_drop : forall fuel,
     (forall fs H, R H (drop_fs fuel fs H)) /\ (forall cid H, R H (drop_cmd fuel cid H)).
@@ -243,6 +245,7 @@ Section Frame.
         * destruct (new_chan H) as [ch1 H1] eqn:E1. destruct (new_chan H1) as [ch2 H2] eqn:E2.
           apply R_new_chan in E1. apply R_new_chan in E2. apply IHp in E.
           eapply R_trans; [exact E1|]. eapply R_trans; eassumption.
+        * destruct (new_chan H) as [ch H1] eqn:E1. apply R_new_chan in E1. apply IHp in E. eapply R_trans; eassumption.
         * destruct (new_chan H) as [ch1 H1] eqn:E1. destruct (new_chan H1) as [ch2 H2] eqn:E2.
           apply R_new_chan in E1. apply R_new_chan in E2. apply IHp in E.
           eapply R_trans; [exact E1|]. eapply R_trans; eassumption.
@@ -294,6 +297,9 @@ Section Frame.
           destruct b'; try (inversion E; subst; eapply R_trans; eassumption).
           apply IHp in E. eapply R_trans; [exact E1|]. eapply R_trans; [exact E2|]. eapply R_trans; [|exact E]. apply R_sub_drop.
         * apply IHp in E. eapply R_trans; [exact E1|]. eapply R_trans; [|exact E]. apply R_sub_drop.
+        * destruct (sub_poll c w qb H1) as [b' H2] eqn:E2. apply R_sub_poll in E2.
+          destruct b'; try (inversion E; subst; eapply R_trans; eassumption).
+          apply IHp in E. eapply R_trans; [exact E1|]. eapply R_trans; [exact E2|]. eapply R_trans; [|exact E]. apply R_sub_drop.
         * destruct (sub_poll c w qb H1) as [b' H2] eqn:E2. apply R_sub_poll in E2.
           destruct b'; try (inversion E; subst; eapply R_trans; eassumption).
           apply IHp in E. eapply R_trans; [exact E1|]. eapply R_trans; [exact E2|]. eapply R_trans; [|exact E]. apply R_sub_drop.
